@@ -338,10 +338,359 @@ theorem vOk_step (s s' : St) (e : Ev) (hi : Inv s) (ht' : ThInv s'.th) (h : VOk 
       · have := lock_free s s' e hs hl; rw [this] at hold; simp at hold
     refine ⟨⟨i, by rw [(nonlock_frame s s' e hs hl).2.1]; exact hcur⟩, ?_⟩
     exact ref_persist s s' e hs r .rcd pc l f sf t hth hpc
-  · cases hnew with
-    | deliver r0 k pc f sf t i hth hk hcur =>
-      -- the visible flag of the entry is `k == rcd`
-      rename_i hvis
-      sorry
+  · obtain ⟨k, pc, f, sf, t, i, hth, hk, hvis, hcur, _, _⟩ := newItem_deliver s s' r true v er hnew
+    have hkr : k = .rcd := by simpa using hvis
+    subst hkr
+    refine ⟨⟨i, hcur⟩, pc, true, f, sf, t, hth, ?_⟩
+    intro hp; subst hp
+    have := ht'.fresh r _ _ _ _ _ hth; simp at this
+
+
+/-! ## clause: every owed call of a release function is justified -/
+
+def NoLive (s : St) : Prop := ∀ (a : Nat) (x : TS), s.th[a]? = some x → x.isLive = false
+
+/-- why the release function of call `i` (entry `k`) may run: its `released()` was called; the
+critical section that owes the call belongs to a `SetContext` in flight; no reference is held; or
+its result was never stored (so never given to anyone) -/
+def Just (s : St) (iv cc : List Nat) (i k : Nat) : Prop :=
+  k ∈ iv ∨
+  (∃ a, s.owner = .thr a ∧ a ∈ cc ∧ ∃ c cl u, s.th[a]? = some (.ctx c cl .done u)) ∨
+  NoLive s ∨
+  (∃ c, s.calls[i]? = some c ∧ c.stored = false)
+
+def JOk (s : St) (iv cc : List Nat) : Prop :=
+  ∀ (i k seen : Nat), CbItem.rel i k seen ∈ s.pend.flatten → Just s iv cc i k
+
+theorem noLive_of_count (s : St) (h : liveRefs s = 0) : NoLive s := by
+  intro a x hx
+  cases hl : x.isLive
+  · rfl
+  · have := countP_pos_of_getElem? TS.isLive s.th a x hx hl
+    unfold liveRefs at h; omega
+
+theorem just_nonlock (s s' : St) (e : Ev) (iv iv' cc cc' : List Nat) (i k : Nat)
+    (hs : step s e = some s') (hl : isLock e = false) (hne : s.pend ≠ [])
+    (hiv : ∀ x, x ∈ iv → x ∈ iv')
+    (hcc : ∀ a, a ∈ cc → (∀ r, e ≠ .retSetCtx a r) → a ∈ cc')
+    (h : Just s iv cc i k) : Just s' iv' cc' i k := by
+  obtain ⟨hown, _, _⟩ := nonlock_frame s s' e hs hl
+  obtain ⟨t1, t2⟩ := th_frame s s' e hs
+  rcases h with h | ⟨a, ho, ha, c, cl, u, hth⟩ | h | ⟨c, hc, hst⟩
+  · exact Or.inl (hiv k h)
+  · right; left
+    -- the SetContext that owns the section cannot return before the section is over
+    have hnr : ∀ r, e ≠ .retSetCtx a r := by
+      intro r he; subst he
+      have hs0 := hs
+      simp only [step, hth] at hs0
+      simp [unlockedFor, ho] at hs0
+      have : s.pend = [] := by simpa using hs0.1.1
+      exact hne this
+    refine ⟨a, by rw [hown]; exact ho, hcc a ha hnr, ?_⟩
+    obtain ⟨x', hx'⟩ := t2 a _ hth
+    rcases t1 a x' hx' with ⟨x, hx, hstp⟩ | ⟨hn, _⟩
+    · rw [hth] at hx; cases hx
+      cases x' with
+      | rel r0 pc0 => simp [ThStep] at hstp
+      | ref k0 pc0 l f sf t => simp [ThStep] at hstp
+      | ctx c' cl' pc' u' =>
+        simp only [ThStep] at hstp
+        obtain ⟨rfl, rfl, hp⟩ := hstp
+        rcases hp with hp | ⟨hp, _⟩ | ⟨_, _, r, he⟩
+        · subst hp; exact ⟨c', cl', u', hx'⟩
+        · cases hp
+        · exact absurd he (hnr r)
+    · rw [hth] at hn; cases hn
+  · right; right; left
+    intro a x' hx'
+    rcases t1 a x' hx' with ⟨x, hx, hstp⟩ | ⟨_, hnw⟩
+    · have hxl := h a x hx
+      cases x with
+      | rel r0 pc0 => cases x' <;> simp [ThStep] at hstp <;> rfl
+      | ctx c cl pc0 u => cases x' <;> simp [ThStep] at hstp <;> rfl
+      | ref k0 pc0 l f sf t =>
+        cases x' with
+        | rel r0 pc0 => simp [ThStep] at hstp
+        | ctx c cl pc1 u => simp [ThStep] at hstp
+        | ref k1 pc1 l1 f1 sf1 t1 =>
+          simp only [ThStep] at hstp
+          obtain ⟨_, _, hls, _⟩ := hstp
+          simp [TS.isLive] at hxl ⊢
+          subst hxl
+          rcases hls with h1 | ⟨_, _, he⟩ | ⟨h1, _⟩
+          · exact h1
+          · subst he; simp [isLock] at hl
+          · cases h1
+    · rcases hnw with ⟨k0, _, _, rfl⟩ | ⟨_, rfl⟩ | ⟨r0, _, rfl⟩ | ⟨c0, cl0, _, rfl⟩ <;> rfl
+  · right; right; right
+    obtain ⟨f1, f2, _⟩ := calls_frame s s' e hs
+    obtain ⟨c', hc'⟩ := f2 i c hc
+    refine ⟨c', hc', ?_⟩
+    rcases f1 i c' hc' with ⟨c0, h0, ⟨_, _, _, _, _, _, _, a8, _⟩⟩ | ⟨hn, _⟩
+    · rw [hc] at h0; cases h0
+      cases hcs : c'.stored
+      · rfl
+      · rcases a8 hcs with h1 | h1
+        · rw [hst] at h1; cases h1
+        · subst h1; simp [isLock] at hl
+    · rw [hc] at hn; cases hn
+
+
+theorem setCtx_facts (s s' : St) (a : Nat) (hs : step s (.setCtxCS a) = some s') :
+    s'.owner = .thr a ∧ (∃ c cl u0, s.th[a]? = some (.ctx c cl .inv u0)) ∧
+    ∃ c cl u, s'.th[a]? = some (.ctx c cl .done u) := by
+  simp only [step] at hs; split at hs <;> try simp at hs
+  rename_i c cl u ha
+  have hlt := lt_of_getElem? ha
+  split at hs <;> simp at hs <;> obtain ⟨_, rfl⟩ := hs
+  · exact ⟨rfl, ⟨c, cl, u, ha⟩, c, cl, false, by simp [hlt]⟩
+  · refine ⟨?_, ⟨c, cl, u, ha⟩, c, cl, true, ?_⟩
+    · rw [startResolve_eq]; split <;> simp [spawned]
+    · rw [startResolve_th, shutdown_th]
+      split
+      · rw [tellAll_get]; simp [hlt, tell1]
+      · simp [hlt]
+
+/-- the justification of a release call at the moment the critical section decides to make it -/
+theorem just_new (s s' : St) (e : Ev) (iv cc : List Nat) (i k : Nat) (hi : Inv s) (hx : Idx s)
+    (hr : RunsOk s iv) (hc : CtxOk s cc) (hs : step s e = some s')
+    (h0 : released s i = false) (h1 : released s' i = true)
+    (hk : ∃ c', s'.calls[i]? = some c' ∧ c'.inv = some k) : Just s' iv cc i k := by
+  rcases flip_cases s s' e i hi hs h0 h1 with ⟨_, s1, hkind, _⟩ | ⟨he, c, val, err, hci, _, _, hst, _, heq⟩
+  · cases hkind with
+    | ctxChange a he _ _ =>
+      subst he
+      obtain ⟨g1, ⟨c, cl, u0, g2⟩, g3⟩ := setCtx_facts s s' a hs
+      exact Or.inr (Or.inl ⟨a, g1, hc a c cl .inv u0 g2 (by simp), g3⟩)
+    | releasedCb j he hj _ =>
+      left
+      obtain ⟨c, k0, hc0, hk0, hm⟩ := hr i (List.mem_of_getElem? hj)
+      obtain ⟨c', hc', g, _⟩ := call_persist s s' e hi hx hs i c hc0
+      obtain ⟨c2, hc2, hk2⟩ := hk
+      rw [hc'] at hc2; cases hc2
+      rw [g k0 hk0] at hk2; cases hk2
+      exact hm
+    | lastRef b he hl h' =>
+      right; right; left
+      apply noLive_of_count
+      rw [h']; simpa using hl
+  · right; right; right
+    subst heq
+    exact ⟨{ c with fin := true, released := true }, by simp [staleSt, setCall, lt_of_getElem? hci], hst⟩
+
+theorem jOk_step (s s' : St) (e : Ev) (iv iv' cc cc' : List Nat) (hi : Inv s) (hx : Idx s)
+    (hp' : PendOk s') (hr : RunsOk s iv) (hc : CtxOk s cc) (h : JOk s iv cc) (hs : step s e = some s')
+    (hiv : ∀ x, x ∈ iv → x ∈ iv')
+    (hcc : ∀ a, a ∈ cc → (∀ r, e ≠ .retSetCtx a r) → a ∈ cc') : JOk s' iv' cc' := by
+  intro i k seen hmem
+  rcases items_frame s s' e hi hs _ hmem with hold | hnew
+  · have hl : isLock e = false := by
+      cases hl : isLock e
+      · rfl
+      · have := lock_free s s' e hs hl; rw [this] at hold; simp at hold
+    have hne : s.pend ≠ [] := by intro h0; rw [h0] at hold; simp at hold
+    exact just_nonlock s s' e iv iv' cc cc' i k hs hl hne hiv hcc (h i k seen hold)
+  · obtain ⟨h0, h1, _⟩ := newItem_rel s s' i k seen hnew
+    have hin : relIn s'.pend i k := by
+      simp only [List.mem_flatten] at hmem
+      obtain ⟨b, hb, hm⟩ := hmem
+      exact ⟨b, hb, seen, hm⟩
+    have hj := just_new s s' e iv cc i k hi hx hr hc hs h0 h1 (hp' i k hin)
+    -- a critical section is an internal event: the monitor's lists did not move... but they may only grow
+    rcases hj with h | ⟨a, ho, ha, hth⟩ | h | h
+    · exact Or.inl (hiv k h)
+    · refine Or.inr (Or.inl ⟨a, ho, hcc a ha ?_, hth⟩)
+      intro r he; subst he
+      -- a `ret` does not call release functions
+      have := (nonlock_frame s s' _ hs (by simp [isLock])).2.2 _ hmem
+      have hfl := flip_cases s s' _ i hi hs h0 h1
+      rcases hfl with ⟨_, s1, hkind, _⟩ | ⟨he, _⟩
+      · cases hkind with
+        | ctxChange a he _ _ => cases he
+        | releasedCb j he _ _ => cases he
+        | lastRef b he _ _ => rcases he with he | he <;> cases he
+      · cases he
+    · exact Or.inr (Or.inr (Or.inl h))
+    · exact Or.inr (Or.inr (Or.inr h))
+
+
+/-! ## the simulation -/
+
+def RelHeld (s : St) (m : HeldSt) : Prop :=
+  Inv s ∧ Idx s ∧ ThInv s.th ∧ PendOk s ∧ LatestOk s m.latest ∧ RelInvOk s m.relInv ∧ CtxOk s m.ctxCalls ∧
+  RunsOk s m.inval ∧ ToldOk s m.told ∧ VOk s ∧ JOk s m.inval m.ctxCalls
+
+theorem relHeld_step (s s' : St) (e : Ev) (m m' : HeldSt) (hR : RelHeld s m) (hs : step s e = some s')
+    (hlat : LatestOk s' m'.latest) (htold : ToldOk s' m'.told)
+    (hri : ∀ r, r ∈ m.relInv → r ∈ m'.relInv) (hri2 : ∀ b r, e = .invRelease b r → r ∈ m'.relInv)
+    (hcc : ∀ a, a ∈ m.ctxCalls → (∀ r, e ≠ .retSetCtx a r) → a ∈ m'.ctxCalls)
+    (hcc2 : ∀ a c cl, e = .invSetCtx a c cl → a ∈ m'.ctxCalls)
+    (hiv : ∀ k, k ∈ m.inval → k ∈ m'.inval) (hiv2 : ∀ k, e = .envReleased k → k ∈ m'.inval) :
+    RelHeld s' m' := by
+  obtain ⟨hi, hx, ht, hp, _, hrel, hctx, hruns, _, hv, hj⟩ := hR
+  have hi' := step_inv s e s' hi hs
+  have hx' := idx_step s s' e hx hs
+  have ht' := step_thinv s s' e ht hs
+  have hp' := pendOk_step s s' e hi hx hp hs
+  exact ⟨hi', hx', ht', hp', hlat, relInvOk_step s s' e _ _ hrel hs hri hri2,
+    ctxOk_step s s' e _ _ hctx hs hcc hcc2, runsOk_step s s' e _ _ hi hx hruns hs hiv hiv2, htold,
+    vOk_step s s' e hi ht' hv hs, jOk_step s s' e _ _ _ _ hi hx hp' hruns hctx hj hs hiv hcc⟩
+
+theorem held_sim_step (s : St) (e : Ev) (s' : St) (m : HeldSt) (hR : RelHeld s m) (hs : step s e = some s') :
+    match Ev.obs e with
+    | none => RelHeld s' m
+    | some o => ∃ m', monHeld.step m o = some m' ∧ RelHeld s' m' := by
+  have hR0 := hR
+  obtain ⟨hi, hx, ht, hp, hlat, hrel, hctx, hruns, htold, hv, hj⟩ := hR
+  -- events on which the monitor state does not move
+  have same : (∀ j k v hh er, e ≠ .leave j k v hh er) → (∀ b r, e ≠ .invRelease b r) →
+      (∀ a c cl, e ≠ .invSetCtx a c cl) → (∀ a r, e ≠ .retSetCtx a r) → (∀ k, e ≠ .envReleased k) →
+      RelHeld s' m := by
+    intro n1 n2 n3 n4 n5
+    exact relHeld_step s s' e m m hR0 hs (latest_other s s' e hi _ hlat hs n1) (toldOk_step s s' e _ hi hx htold hs)
+      (fun _ h => h) (fun b r he => absurd he (n2 b r)) (fun _ h _ => h) (fun a c cl he => absurd he (n3 a c cl))
+      (fun _ h => h) (fun k he => absurd he (n5 k))
+  cases e with
+  | leave j k v hh er =>
+    refine ⟨{ m with latest := some k }, by simp [Ev.obs, monHeld], ?_⟩
+    exact relHeld_step s s' _ m _ hR0 hs (latest_leave s s' hi m.latest j k v hh er hs)
+      (toldOk_step s s' _ _ hi hx htold hs) (fun _ h => h) (by intro b r he; cases he) (fun _ h _ => h)
+      (by intro a c cl he; cases he) (fun _ h => h) (by intro k he; cases he)
+  | invRelease b r =>
+    refine ⟨{ m with relInv := r :: m.relInv }, by simp [Ev.obs, monHeld], ?_⟩
+    exact relHeld_step s s' _ m _ hR0 hs (latest_other s s' _ hi _ hlat hs (by simp))
+      (toldOk_step s s' _ _ hi hx htold hs) (fun _ h => List.mem_cons_of_mem _ h)
+      (by intro b' r' he; cases he; exact List.mem_cons_self) (fun _ h _ => h)
+      (by intro a c cl he; cases he) (fun _ h => h) (by intro k he; cases he)
+  | envReleased k =>
+    refine ⟨{ m with inval := k :: m.inval }, by simp [Ev.obs, monHeld], ?_⟩
+    exact relHeld_step s s' _ m _ hR0 hs (latest_other s s' _ hi _ hlat hs (by simp))
+      (toldOk_step s s' _ _ hi hx htold hs) (fun _ h => h) (by intro b r he; cases he) (fun _ h _ => h)
+      (by intro a c cl he; cases he) (fun _ h => List.mem_cons_of_mem _ h)
+      (by intro k' he; cases he; exact List.mem_cons_self)
+  | invSetCtx a c cl =>
+    refine ⟨{ m with ctxCalls := a :: m.ctxCalls }, by simp [Ev.obs, monHeld], ?_⟩
+    exact relHeld_step s s' _ m _ hR0 hs (latest_other s s' _ hi _ hlat hs (by simp))
+      (toldOk_step s s' _ _ hi hx htold hs) (fun _ h => h) (by intro b r he; cases he)
+      (fun _ h _ => List.mem_cons_of_mem _ h) (by intro a' c' cl' he; cases he; exact List.mem_cons_self)
+      (fun _ h => h) (by intro k he; cases he)
+  | retSetCtx a u =>
+    refine ⟨{ m with ctxCalls := m.ctxCalls.erase a }, by simp [Ev.obs, monHeld], ?_⟩
+    exact relHeld_step s s' _ m _ hR0 hs (latest_other s s' _ hi _ hlat hs (by simp))
+      (toldOk_step s s' _ _ hi hx htold hs) (fun _ h => h) (by intro b r he; cases he)
+      (by
+        intro a' h hne
+        have : a' ≠ a := by intro e; subst e; exact hne u rfl
+        exact (List.mem_erase_of_ne this).mpr h)
+      (by intro a' c' cl' he; cases he) (fun _ h => h) (by intro k he; cases he)
+  | cb it =>
+    cases it with
+    | rel i k seen =>
+      have hs0 := hs
+      simp only [step] at hs0; split at hs0 <;> try simp at hs0
+      rename_i b rest hpe
+      have hmem : CbItem.rel i k seen ∈ s.pend.flatten := by
+        rw [hpe]; simp; exact Or.inl hs0.1
+      have hjust := hj i k seen hmem
+      have hin : relIn s.pend i k := ⟨b, by rw [hpe]; simp, seen, hs0.1⟩
+      obtain ⟨ci, hci, hcik⟩ := hp i k hin
+      have hok : monHeld.step m (.cbinRel k seen) = some m := by
+        simp [monHeld]
+        intro hninv hcc0 r k' hpm hk'
+        subst hk'
+        by_cases hr : r ∈ m.relInv
+        · exact hr
+        · exfalso
+          obtain ⟨⟨i', c', hc', hk', hst'⟩, ⟨pc, l, f, sf, t, hth, hpc⟩⟩ := htold (r, k') hpm
+          rcases hjust with h | ⟨a, _, ha, _⟩ | h | ⟨c0, hc0, hs0'⟩
+          · exact hninv h
+          · rw [hcc0] at ha; cases ha
+          · have hl := h r _ hth
+            cases l
+            · exact hr (hrel.2 r .rcd pc f sf t hth hpc (by simp))
+            · simp [TS.isLive] at hl
+          · have : i' = i := hx.inj i' i c' ci k' hc' hci hk' hcik
+            subst this; rw [hc'] at hc0; cases hc0; rw [hst'] at hs0'; cases hs0'
+      exact ⟨m, by simpa [Ev.obs] using hok, same (by simp) (by simp) (by simp) (by simp) (by simp)⟩
+    | refcb r vis res v er =>
+      cases vis with
+      | false => exact same (by simp) (by simp) (by simp) (by simp) (by simp)
+      | true =>
+        cases res with
+        | false => exact ⟨m, by simp [Ev.obs, monHeld], same (by simp) (by simp) (by simp) (by simp) (by simp)⟩
+        | true =>
+          have hs0 := hs
+          simp only [step] at hs0; split at hs0 <;> try simp at hs0
+          rename_i b rest hpe
+          have hmem : CbItem.refcb r true true v er ∈ s.pend.flatten := by
+            rw [hpe]; simp; exact Or.inl hs0.1
+          obtain ⟨⟨i, hcur⟩, pc, l, f, sf, t, hth, hpc⟩ := hv r v er hmem
+          obtain ⟨c, hh, hc, _, hst, _, hres, _⟩ := hi.core.curSome i hcur
+          have hlt := hlat.2 i c hcur hc
+          have hinv := hx.res i c hc (by rw [hres]; rfl)
+          obtain ⟨k, hk⟩ := Option.isSome_iff_exists.mp hinv
+          have hmk : m.latest = some k := by rw [hlt, hk]
+          refine ⟨{ m with told := (r, k) :: m.told }, by simp [Ev.obs, monHeld, hmk], ?_⟩
+          have hone : ToldOk s [(r, k)] := by
+            intro p hp1; simp at hp1; subst hp1
+            exact ⟨⟨i, c, hc, hk, hst⟩, ⟨pc, l, f, sf, t, hth, hpc⟩⟩
+          have hone' := toldOk_step s s' _ _ hi hx hone hs
+          have hold' := toldOk_step s s' _ _ hi hx htold hs
+          exact relHeld_step s s' _ m _ hR0 hs (latest_other s s' _ hi _ hlat hs (by simp))
+            (by
+              intro p hp1
+              simp only [List.mem_cons] at hp1
+              rcases hp1 with rfl | hp1
+              · exact hone' _ (by simp)
+              · exact hold' p hp1)
+            (fun _ h => h) (by intro b' r' he; cases he) (fun _ h _ => h) (by intro a c cl he; cases he)
+            (fun _ h => h) (by intro k' he; cases he)
+  | cfg kp c t => exact ⟨m, rfl, same (by simp) (by simp) (by simp) (by simp) (by simp)⟩
+  | invAddRef a kd => exact ⟨m, rfl, same (by simp) (by simp) (by simp) (by simp) (by simp)⟩
+  | addRefCS a => exact same (by simp) (by simp) (by simp) (by simp) (by simp)
+  | retAddRef a => exact ⟨m, rfl, same (by simp) (by simp) (by simp) (by simp) (by simp)⟩
+  | relSwap b => exact same (by simp) (by simp) (by simp) (by simp) (by simp)
+  | relCS b => exact same (by simp) (by simp) (by simp) (by simp) (by simp)
+  | retRelease b => exact ⟨m, rfl, same (by simp) (by simp) (by simp) (by simp) (by simp)⟩
+  | setCtxCS a => exact same (by simp) (by simp) (by simp) (by simp) (by simp)
+  | envCancelCtx c => exact ⟨m, rfl, same (by simp) (by simp) (by simp) (by simp) (by simp)⟩
+  | relRun r => exact same (by simp) (by simp) (by simp) (by simp) (by simp)
+  | enter i k => exact ⟨m, rfl, same (by simp) (by simp) (by simp) (by simp) (by simp)⟩
+  | giveUp i => exact same (by simp) (by simp) (by simp) (by simp) (by simp)
+  | drained i => exact same (by simp) (by simp) (by simp) (by simp) (by simp)
+  | store i => exact same (by simp) (by simp) (by simp) (by simp) (by simp)
+  | done i => exact same (by simp) (by simp) (by simp) (by simp) (by simp)
+  | invHook a => exact ⟨m, rfl, same (by simp) (by simp) (by simp) (by simp) (by simp)⟩
+  | selfRelSwap a => exact same (by simp) (by simp) (by simp) (by simp) (by simp)
+  | selfRelCS a => exact same (by simp) (by simp) (by simp) (by simp) (by simp)
+  | probe v er => exact ⟨m, rfl, same (by simp) (by simp) (by simp) (by simp) (by simp)⟩
+  | quiesce B => exact ⟨m, rfl, same (by simp) (by simp) (by simp) (by simp) (by simp)⟩
+
+
+/-- **C08 (observable form) `rel_held_obs`.** Every observable trace of the RefCount model is
+accepted by `monHeld`: a release function does not run while a recording reference that was given
+that result is still held (its `Release` not yet invoked), unless the value was invalidated — its
+`released()` callback was called, or a `SetContext` / `ClearContext` is in flight — for every event
+list. (Also: a `resolved = true` notification is only delivered after some resolver has returned.) -/
+theorem rel_held_obs (es : List Ev) (s : St) (h : model.run model.init es = some s) :
+    monHeld.accepts (es.filterMap model.obs) = true :=
+  monitor_accepts_of_simulation model monHeld RelHeld
+    ⟨init_inv, idx_init, thinv_nil, by intro i k ⟨b, hb, _⟩; simp [model] at hb,
+      ⟨by intro i c hc; simp [model] at hc, by intro i c hc; simp [model] at hc⟩,
+      ⟨by intro b r pc hb; simp [model] at hb, by intro r k pc f sf t hr; simp [model] at hr⟩,
+      by intro a c cl pc u ha; simp [model] at ha,
+      by intro i hi; simp [model] at hi,
+      by intro p hp; simp [monHeld] at hp,
+      by intro r v er hm; simp [model] at hm,
+      by intro i k seen hm; simp [model] at hm⟩
+    (fun s e s' ms hR hs => by
+      have h := held_sim_step s e s' ms hR hs
+      cases e with
+      | cb it =>
+        cases it with
+        | refcb r vis res v er => cases vis <;> exact h
+        | rel i k seen => exact h
+      | _ => exact h) es s h
 
 end UtilModel.RefCount
